@@ -446,6 +446,35 @@ def check_iterators(eng, run):
     run.floor("C03.cli receive iterators", n, 2)
 
 
+def check_water_marks(eng, run, rule="C03.flow"):
+    """reading is paused before the fixed receive buffer is full: the read high-water mark, computed by constant propagation through
+    the limit computation of the asyncio protocol, does not exceed the buffer size (and low <= high); a mark above the buffer size
+    means reading is never paused, the loop is handed an empty buffer and aborts the connection with everything buffered"""
+    from sa.analyses.constprop import UNKNOWN, ConstEval
+    n = 0
+    for ci in eng.db.classes.values():
+        comp = ci.methods.get("_compute_read_buffer_limits")
+        if comp is None:
+            continue
+        n += 1
+        ev = ConstEval(eng, comp)
+        ev.run()
+        size = ev._class_const("max_size")
+        marks = {k: v for k, v in ev.self_attrs.items() if "water" in k}
+        hi = next((v for k, v in marks.items() if "high" in k), UNKNOWN)
+        lo = next((v for k, v in marks.items() if "low" in k), UNKNOWN)
+        if any(x is UNKNOWN or not isinstance(x, int) for x in (size, hi, lo)):
+            run.ob(rule, f"{ci.name}:read-water-marks-within-buffer", True, evaluated=False, reason="not compile-time constants: rule skipped")
+            continue
+        ok = 0 <= lo <= hi <= size and hi > 0
+        if not ok:
+            run.finding(rule, comp, comp.node, f"read water marks low={lo}, high={hi} against a receive buffer of {size} bytes: " + (
+                "the high-water mark is above the buffer size, so reading is never paused; when the buffer fills up the event loop gets an empty buffer, raises and drops the connection with all buffered data"
+                if hi > size else "the marks are not ordered 0 <= low <= high"))
+        run.ob(rule, f"{ci.name}:read-water-marks-within-buffer", ok, evaluated=True, low=lo, high=hi, buffer=size)
+    run.floor(f"{rule} protocols with computed read limits", n, 1)
+
+
 def check_buf(eng, run):
     """a caller-owned receive buffer registered with the event loop is withdrawn on every exit of the receive (shared with C10.lend)"""
     from rules.c10 import check_lend
@@ -457,6 +486,7 @@ def run(eng, run):
     check_receivers(eng, run)
     check_clients(eng, run)
     check_flow(eng, run)
+    check_water_marks(eng, run)
     check_buf(eng, run)
     check_iterators(eng, run)
     from rules import c08
@@ -534,4 +564,11 @@ MUTANTS += [
 ]
 BENIGN += [
     Variant("resume-before-return-via-local", _SOCKP + ".receive_data", lambda fn: replace_stmt(fn, stmt_is("return data"), "result = data\nreturn result"), why="return through a local"),
+]
+
+
+MUTANTS += [
+    Variant("read-water-marks-in-bytes-passed-as-kib", _SOCKP + "._compute_read_buffer_limits",
+            lambda fn: setattr(fn, "body", ast.parse("default_water_size = self.max_size * 3 // 4\nhigh, low = add_flowcontrol_defaults(None, None, default_water_size)\nself.__read_high_water: int = high\nself.__read_low_water: int = low").body),
+            "C03.flow", why="high-water mark 192 MiB on a 256 KiB buffer: reading is never paused, a full buffer aborts the connection (seed C10-8)"),
 ]
